@@ -148,6 +148,8 @@ def run(p: Program, rep: Report, tier: str) -> None:
     rep.assume("values computed by shared stdlib calls are equal when their argument expressions are; duplicate request-header semantics (ASGI last-wins scan vs server-joined environ) are outside what the fingerprints decide")
     F = Folder(p)
     names = shared_names(p)
+    from .. import sibling as _sib
+    _sib.PROGRAM = p
 
     # ---------------------------------------------------------------- R4.1 public pairing
     try:
@@ -178,8 +180,11 @@ def run(p: Program, rep: Report, tier: str) -> None:
         for q, f in sorted(wf.items()):
             tgt = RENAMED.get((mod, q), q)
             if tgt in af:
-                pairs.append((mod, f, af[tgt]))
                 used_a.add(tgt)
+                if _is_folded_helper(p, f) and _is_folded_helper(p, af[tgt]):
+                    rep.ok("R4.2", f"{mod}.{q}: private helper on both sides, compared inside its callers")
+                else:
+                    pairs.append((mod, f, af[tgt]))
             elif ("wsgi", mod, q) in ONE_SIDED_OK:
                 rep.ok("R4.2", f"{mod}.{q}: WSGI only ({ONE_SIDED_OK[('wsgi', mod, q)]})")
             elif _is_folded_helper(p, f):
@@ -223,6 +228,12 @@ def run(p: Program, rep: Report, tier: str) -> None:
         only_w = fw - fa
         only_a = fa - fw
         sanc = GATEWAY + SANCTIONED.get((mod, f.qualname), [])
+        if f.parent is not None and (mod, f.qualname) not in SANCTIONED:
+            # a nested function's name is a local name: fall back to the sanctions recorded for the nested functions of its parent
+            pq = f.parent.qualname + "."
+            for (m_, q_), lst in SANCTIONED.items():
+                if m_ == mod and q_.startswith(pq):
+                    sanc = sanc + lst
         # the return-shape sanction is for code that talks to the gateway (application callables, generators, coroutines
         # awaiting the channel); a plain accessor that takes no gateway object must return the same shape on both sides
         def _gw(fi) -> bool:
@@ -369,6 +380,10 @@ def _is_folded_helper(p: Program, f: FuncInfo) -> bool:
         for n in ast.walk(g.node):
             if isinstance(n, ast.Call) and ((isinstance(n.func, ast.Name) and n.func.id == name) or (isinstance(n.func, ast.Attribute) and n.func.attr == name)):
                 return True
+    # handed to module-level machinery as a value (e.g. the default factory of a table)
+    for n in ast.walk(f.module.tree):
+        if isinstance(n, ast.Name) and n.id == name and isinstance(n.ctx, ast.Load):
+            return True
     return False
 
 
